@@ -420,6 +420,8 @@ def conforms(node, v):
     """`v` conforms to the type declared by `node` at every position.
     null: conforms to every type in the FEEL lattice, but inside a collection the statement does not
     say whether a null item keeps the collection conforming -> Undecided."""
+    if v is None and node["coll"]:
+        return True  # null conforms to every type, a collection type included (only a null ITEM is unsettled)
     if node["coll"]:
         if not isinstance(v, list):
             return False
@@ -560,11 +562,12 @@ def violations(node):
             yield _scalar_not(e), "wrong-scalar-for-collection", node
         yield [], "empty-collection", node  # conforming
         yield [good(node)], "nested-singleton", node  # [[..]] : one level too many
+        yield [[]], "nested-singleton-of-empty", node  # unwraps to the (conforming) empty collection
         yield [ge, None], "null-item", node
         flip = 0
         for v, kind, at in violations(e):
-            if kind in ("null",):
-                continue  # = null-item
+            if kind in ("null", "nested-singleton-of-empty"):
+                continue  # null = null-item; [[]] next to a non-empty item is the known heterogeneous-list finding, kept at top level only
             flip += 1
             yield ([v, good(e, 1)] if flip % 2 else [good(e, 0), v]), kind, at
         return
@@ -589,6 +592,9 @@ def violations(node):
     g = good(node)
     yield GOOD["number"][0], "scalar-for-component", node
     yield [g], "singleton-for-component", node
+    if len(node["cs"]) >= 1:
+        # a singleton whose element conforms without being of exactly the declared type (a null component)
+        yield [ctx([(n, (None if j == 0 else good(cj))) for j, (n, cj) in enumerate(node["cs"])])], "singleton-with-null-component", node
     yield [g, good(node, 1)], "list-for-component", node
     yield None, "null", node
     for i, (name, c) in enumerate(node["cs"]):
